@@ -495,6 +495,9 @@ func (e *Enc) encodeAlloc(x *ssa.Alloc) {
 	}
 	r := e.newRef("new_" + x.Comment)
 	c := e.bind(x, r)
+	if _, isStruct := elem.Underlying().(*types.Struct); isStruct {
+		e.assert(Eq(App(SInt, "tyof", c), IntLit(int64(e.p.TypeID(elem)))))
+	}
 	e.allocs = append(e.allocs, allocRec{val: x, instr: x, ref: c, typ: elem, block: e.curBlock})
 	switch u := elem.Underlying().(type) {
 	case *types.Struct:
@@ -1024,10 +1027,23 @@ func (e *Enc) encodeConvert(x *ssa.Convert) {
 			e.bind(x, App(SInt, w, v))
 		}
 	case fok && tok && fb.Info()&types.IsInteger != 0 && tb.Info()&types.IsFloat != 0:
-		e.bind(x, App(SF64, "i2f", v))
+		c := e.bind(x, App(SF64, "i2f", v))
+		// sign facts of the (otherwise uninterpreted) conversion
+		zero := mk(SF64, "(_ +zero 11 53)")
+		e.assume(And(Not(App(SBool, "fp.isNaN", c)), Not(App(SBool, "fp.isInfinite", c))))
+		e.assume(Implies(Ge(v, IntLit(0)), App(SBool, "fp.geq", c, zero)))
+		e.assume(Implies(Le(v, IntLit(0)), App(SBool, "fp.leq", c, zero)))
+		e.assume(Eq(Eq(v, IntLit(0)), App(SBool, "fp.isZero", c)))
+		e.assume(Implies(Le(v, BigLit(maxLenStr)), App(SBool, "fp.leq", c, mk(SF64, "((_ to_fp 11 53) RNE 4611686018427387904.0)"))))
 	case fok && tok && fb.Info()&types.IsFloat != 0 && tb.Info()&types.IsInteger != 0:
 		c := e.bind(x, App(SInt, "f2i", v))
 		e.assume(e.typeInv(c, x.Type(), e.cur.now))
+		zero := mk(SF64, "(_ +zero 11 53)")
+		if !isUnsigned(x.Type()) {
+			// truncation keeps the sign for in-range values; out-of-range/NaN results are implementation-defined but
+			// on amd64/arm64 they are the minimum integer or saturate, never a positive value for a negative input
+			e.assume(Implies(And(App(SBool, "fp.geq", v, zero), App(SBool, "fp.lt", v, mk(SF64, "((_ to_fp 11 53) RNE 9223372036854775807.0)"))), Ge(c, IntLit(0))))
+		}
 	case fok && tok && fb.Info()&types.IsFloat != 0 && tb.Info()&types.IsFloat != 0:
 		if tb.Kind() == types.Float32 && fb.Kind() != types.Float32 {
 			e.bind(x, App(SF64, "f32round", v))
